@@ -645,7 +645,7 @@ pub fn property() -> Property {
             PropSub {
                 name: "drop-random",
                 strategy: drop_strategy,
-                cases: |t| t.pick(400_000, 8_000_000),
+                cases: |t| t.pick(1_600_000, 8_000_000),
                 run: run_drop,
                 floors: &[("origin", 0.3), ("router-key", 0.3), ("aspa", 0.3), ("dropped", 0.3), ("kept", 0.3), ("dropped-non-prefix", 0.1), ("aspa-none", 0.1)],
             }
@@ -653,7 +653,7 @@ pub fn property() -> Property {
             PropSub {
                 name: "json",
                 strategy: file_strategy,
-                cases: |t| t.pick(100_000, 1_200_000),
+                cases: |t| t.pick(400_000, 1_200_000),
                 run: run_json,
                 floors: &[("comment", 0.4), ("version-1", 0.03), ("version-2", 0.4), ("all-assertion-kinds", 0.15)],
             }
